@@ -5,6 +5,7 @@ import (
 	"go/types"
 	"sort"
 	"strings"
+	"sync"
 
 	"golang.org/x/tools/go/ssa"
 )
@@ -63,9 +64,10 @@ type Obligation struct {
 
 // KeyInfo describes one state key.
 type KeyInfo struct {
-	Name string
-	Sort string
-	Kind string // field cell mem global local ghost alloc mapdom mapval maplen iter
+	Name   string
+	Sort   string
+	Kind   string // field cell mem global local ghost alloc mapdom mapval maplen iter
+	GoType string // field, global: the Go type of the stored value
 }
 
 // FnVC generates verification conditions for one function.
@@ -103,6 +105,9 @@ type FnVC struct {
 	houdiniByOrd map[int][]Clause
 	inferOnly bool
 	axiomDefs []string
+	defIndex  map[string]int
+	defIndexed int
+	idxMu     sync.Mutex
 	usedOfArr bool
 	usedExtQ  bool
 	usedSpecs map[string]bool
@@ -372,6 +377,14 @@ func (vc *FnVC) key(name, sort, kind string) *KeyInfo {
 	return k
 }
 
+func (vc *FnVC) keyFrom(ki *KeyInfo) *KeyInfo {
+	k := vc.key(ki.Name, ki.Sort, ki.Kind)
+	if k.GoType == "" {
+		k.GoType = ki.GoType
+	}
+	return k
+}
+
 func entrySym(key string) string { return sanitize(key) + "@0" }
 
 func (vc *FnVC) get(st *State, key string) string {
@@ -413,7 +426,9 @@ func (vc *FnVC) fieldKey(structT types.Type, f *types.Var) *KeyInfo {
 		return nil // embedded struct value: no own heap
 	}
 	name := "F!" + typeName(structT) + "!" + f.Name()
-	return vc.key(name, "(Array Int "+fs+")", "field")
+	k := vc.key(name, "(Array Int "+fs+")", "field")
+	k.GoType = f.Type().String()
+	return k
 }
 
 func fieldKeyName(structT types.Type, fname string) string {
